@@ -160,10 +160,12 @@ class DemeTree:
 
     def run_sprout(self) -> None:
         deme_seeds = self._sprout_mechanism.get_seeds(self)
+        # Demes created by this round did not take part in it: they start awake.
+        demes_in_round = list(reversed(self.active_non_leaves))
         self._do_sprout(deme_seeds)
 
         if "hibernation" in self.config.options and self.config.options["hibernation"]:
-            for _, deme in reversed(self.active_non_leaves):
+            for _, deme in demes_in_round:
                 if deme in deme_seeds:
                     if deme._hibernating:
                         self._logger.debug("Deme stopped hibernating", deme=deme.id)
